@@ -2,6 +2,7 @@ package restdiff
 
 import (
 	"context"
+	"crypto/sha256"
 	"encoding/hex"
 	"encoding/json"
 	"fmt"
@@ -17,6 +18,7 @@ import (
 	"time"
 
 	"google.golang.org/grpc/stats"
+	"google.golang.org/grpc/status"
 	"google.golang.org/protobuf/encoding/protojson"
 
 	"github.com/imoore76/ldlm/lock"
@@ -31,9 +33,35 @@ import (
 
 const sessionCookie = "ldlm-session"
 
+// longTok is the length above which a string is written to the trace in abbreviated form.
+const longTok = 128
+
+// abbrev maps a long string (lock name, key, echoed name) injectively - up to SHA-256 collisions - to a short one:
+// "\x7fL<length>:<first 10 bytes of its SHA-256, hex>". The trace, the oracle and the extracted model treat names and keys
+// as opaque values (equality and emptiness only), so the abbreviated trace is judged exactly like the full one, and a
+// 1 MB name does not make a 100 MB trace. Both sides of a case are abbreviated by the same function.
+func abbrev(s string) string {
+	if len(s) <= longTok {
+		return s
+	}
+	h := sha256.Sum256([]byte(s))
+	return fmt.Sprintf("\x7fL%d:%x", len(s), h[:10])
+}
+
 func hx(s string) string {
 	if s == "" {
 		return "-"
+	}
+	return hex.EncodeToString([]byte(abbrev(s)))
+}
+
+// hxCut: hex of at most n bytes of s (free text: error messages, response bodies).
+func hxCut(s string, n int) string {
+	if s == "" {
+		return "-"
+	}
+	if len(s) > n {
+		s = s[:n]
 	}
 	return hex.EncodeToString([]byte(s))
 }
@@ -41,6 +69,25 @@ func hx(s string) string {
 func unhx(s string) string {
 	if s == "" || s == "-" {
 		return ""
+	}
+	if strings.HasPrefix(s, "rep:") {
+		// rep:<unit hex>:<count>[:<suffix hex>]
+		f := strings.Split(s[4:], ":")
+		if len(f) < 2 {
+			return ""
+		}
+		u, err := hex.DecodeString(f[0])
+		n, err2 := strconv.Atoi(f[1])
+		if err != nil || err2 != nil || n < 0 || n*len(u) > 64<<20 {
+			return ""
+		}
+		out := strings.Repeat(string(u), n)
+		if len(f) > 2 {
+			if t, err := hex.DecodeString(f[2]); err == nil {
+				out += string(t)
+			}
+		}
+		return out
 	}
 	b, err := hex.DecodeString(s)
 	if err != nil {
@@ -467,6 +514,7 @@ func noopExchange(kind string) (method, path, body string) {
 	}
 }
 
+// (Lit, Pre and Suf may be in the rep: form of long strings: unhx reads both)
 func (x *Exec) resolveKey(k *KeyRef, keys map[int]string) string {
 	if k == nil {
 		return ""
@@ -770,6 +818,22 @@ func (x *Exec) Step(i int, ev Ev) {
 		if notes != "" {
 			x.emit("N %s", notes)
 		}
+		if ex.status != 200 {
+			x.emit("N http=%d body=%s", ex.status, hxCut(ex.body, 300))
+		}
+		x.emit("N ev=%d render=%s body_bytes=%d name_bytes=%d key_bytes=%d", i, mode, len(body), len(name), len(keyR))
+		if len(name) > longTok {
+			x.stats["long_name_exchanges"]++
+		}
+		if len(keyR) > longTok {
+			x.stats["long_key_exchanges"]++
+		}
+		if len(body) > 4096 {
+			x.stats["bodies_over_4096_bytes"]++
+		}
+		if len(body) > 65536 {
+			x.stats["bodies_over_64KiB"]++
+		}
 		x.note(ex)
 		x.emitEnds()
 		// the same abstract request over gRPC, on the connection that plays this session
@@ -821,7 +885,7 @@ func (x *Exec) grpcCall(i int, ev Ev, sl *slot, svc caller, keys map[int]string,
 		r, err := svc.TryLock(sl.ctxG, &pb.TryLockRequest{Name: name, Size: ev.Size, LockTimeoutSeconds: ev.Lt})
 		if err != nil || r == nil {
 			x.emit("%s try %s %s %s %s -", ePre, hx(sl.sidG), hx(name), optTok(ev.Size), optTok(ev.Lt))
-			x.emit("%s rpcerror %s", oPre, hx(fmt.Sprint(err)))
+			x.emit("%s rpcerror %s", oPre, rpcErrToks(err))
 			return
 		}
 		keys[i] = r.Key
@@ -832,7 +896,7 @@ func (x *Exec) grpcCall(i int, ev Ev, sl *slot, svc caller, keys map[int]string,
 		r, err := svc.Unlock(sl.ctxG, &pb.UnlockRequest{Name: name, Key: key})
 		x.emit("%s unl %s %s %s", ePre, hx(sl.sidG), hx(name), hx(key))
 		if err != nil || r == nil {
-			x.emit("%s rpcerror %s", oPre, hx(fmt.Sprint(err)))
+			x.emit("%s rpcerror %s", oPre, rpcErrToks(err))
 			return
 		}
 		x.emit("%s r unl %s %s", oPre, b01(r.Unlocked), errTok(r.Error))
@@ -845,12 +909,17 @@ func (x *Exec) grpcCall(i int, ev Ev, sl *slot, svc caller, keys map[int]string,
 		r, err := svc.Renew(sl.ctxG, &pb.RenewRequest{Name: name, Key: key, LockTimeoutSeconds: lt})
 		x.emit("%s ren %s %s %d", ePre, hx(name), hx(key), lt)
 		if err != nil || r == nil {
-			x.emit("%s rpcerror %s", oPre, hx(fmt.Sprint(err)))
+			x.emit("%s rpcerror %s", oPre, rpcErrToks(err))
 			return
 		}
 		x.emit("%s r lock %s %s %s", oPre, b01(r.Locked), hx(r.Key), errTok(r.Error))
 		x.emit("N %s name=%s", errNote(r.Error), hx(r.Name))
 	}
+}
+
+// rpcErrToks: "<message, hex, at most 300 bytes> code=<gRPC status code>" of a call the transport refused.
+func rpcErrToks(err error) string {
+	return fmt.Sprintf("%s code=%d", hxCut(fmt.Sprint(err), 300), int(status.Code(err)))
 }
 
 func ckKind(ev Ev) string {
